@@ -55,6 +55,7 @@ type rowStoreOptions struct {
 type insert struct {
 	key      bytemap.ByteMap
 	vals     encoding.TSParams
+	moreVals []encoding.TSParams // additional values of the same point (array elements)
 	metadata bytemap.ByteMap
 	offset   wal.Offset
 	source   int
@@ -293,6 +294,9 @@ func (rs *rowStore) processInserts(offsetsBySource common.OffsetsBySource, stop 
 			ms.offsetChanged = true
 			if insert.key != nil {
 				ms.tree.Update(insert.key, nil, insert.vals, insert.metadata)
+				for _, vals := range insert.moreVals {
+					ms.tree.Update(insert.key, nil, vals, insert.metadata)
+				}
 				rs.t.updateHighWaterMarkMemory(insert.vals.TimeInt())
 			}
 			vhook("rs.apply", rs.t, insert.offset, insert.source, insert.key != nil)
